@@ -228,3 +228,10 @@ Theorem C20_mapor_kmn_state_is_spec (H : list (oprec (mop oop))) :
            (ospec_deferred (oabs <$> known_ops H K)).
 Proof. exact (mapor_refine_kmn H). Qed.
 Print Assumptions C20_mapor_kmn_state_is_spec.
+
+(** depth 3 without key removes: equal knowledge gives Leibniz-equal complete states (proofs/MapNKFunctorInst.v) *)
+From Crdt Require Import model.Orswot model.Map spec.System spec.OrswotSpec spec.OrswotSystem spec.MapSpec spec.MapSystem spec.MapOrswotSpec spec.MapMapOrswotSpec spec.MapMapOrswotNKSpec proofs.MapMapOrswotNK proofs.MapNKFunctor proofs.MapNKFunctorInst.
+Theorem C20_map3_nk_state_eq (H : list (oprec (mop (mop (mop oop))))) :
+  m3hist_ok_nk H -> forall (s1 s2 : cmap (cmap (cmap orswot))) (K : gset nat), m3reach_nk H s1 K -> m3reach_nk H s2 K -> s1 = s2.
+Proof. exact (map3_converge_nk H). Qed.
+Print Assumptions C20_map3_nk_state_eq.
